@@ -27,8 +27,8 @@ def run(chk):
     mod = kit.load(MOD)
     for kname in GEOM:
         chk.section(f'{kname}: dtype grid, shapes', kernel_contract, mod, kname)
-    graph(chk)
-    fp_boundary(chk)
+    chk.section('graph wiring', graph)
+    chk.section('comparison at the NaN boundary in floating point', fp_boundary)
     native_probe(chk)
     convert_probe(chk)
 
